@@ -34,7 +34,7 @@ const (
 	evTickQuery  = "Tick+failing:infoquery"  // GetLatestInfoUntilBlock fails once with a non-sentinel error
 	evTickCheck  = "Tick+failing:isinjected" // IsGERInjected fails once
 	evTickInject = "Tick+failing:inject"     // InjectGER fails once (nothing reaches L2)
-	evForeign    = "ForeignInject"   // somebody else injects the latest root at or below the finalized block
+	evForeign    = "ForeignInject"           // somebody else injects the latest root at or below the finalized block
 	evForeignOld = "ForeignInject(retry-target)"
 	// ... the latest root at or below the OLDEST finalized block sampled since the last decision
 	// (what an oracle that is retrying its first target would pick), when that is another root.
